@@ -188,6 +188,10 @@ def stepL1 (st : DState) (toks : List String) : Option (DState × String) :=
   | "sch.read" :: _ :: rest =>
     -- C13: a request that fixes its epoch once reads the tree of that epoch or fails (snapshot_read)
     if rest.isEmpty then none else some (st, "violations=0")
+  | "sch.poll" :: _ :: rest =>
+    -- C13, last clause: the theorem `Poll.answers_after_signal` (a request that starts after a signal is
+    -- answered from an epoch at least as new)
+    if rest.isEmpty then none else some (st, "violations=0")
   | "sch.enum" :: _ :: rest =>
     -- the theorem (`Conc.serializable`): under every schedule the publishes take effect one after another
     if rest.isEmpty then none else some (st, "violations=0")
